@@ -394,6 +394,7 @@ __attribute__((noinline, no_sanitize("address"))) static void scrub_stack() {
 static void child_run(const Plan& p) {
   scrub_stack();
   run_reset_child();
+  reuse_reset(p.reuse != 0);
   if (!apply_locale(p.locale)) { fprintf(stderr, "xrlsim: locale configuration %d unavailable\n", p.locale); _exit(3); }
   logf("PLAN engine=%s batch=%s seed=%llu runseed=%llu locale=%s", p.engine.c_str(), p.batch.c_str(), (unsigned long long)p.seed,
        (unsigned long long)p.runseed, locale_name(p.locale));
@@ -464,6 +465,7 @@ static Plan gen_plan(uint64_t runseed) {
   p.runseed = runseed;
   Rng rp(splitmix64(runseed ^ tag_of("plan")));
   Rng rf(splitmix64(runseed ^ tag_of("fault")));
+  p.reuse = splitmix64(runseed ^ tag_of("reuse")) % 4 == 0 ? 1 : 0;   // a quarter of all runs: allocator reuse mode
   Rng rs(splitmix64(runseed ^ tag_of("sched")));
   (void)rf;
   GenCfg cfg;
@@ -965,6 +967,7 @@ static void enum_instance(uint64_t runseed, long index) {
   Rng r(splitmix64(runseed ^ tag_of("enum")));
   Plan p;
   p.engine = O.engine; p.batch = "enum"; p.data = O.data; p.seed = O.seed; p.runseed = runseed; p.locale = LOC_C;
+  p.reuse = splitmix64(runseed ^ tag_of("reuse")) % 4 == 0 ? 1 : 0;
   p.tasks.push_back(TaskPlan());
   GenCfg cfg;
   cfg.min_ops = 1; cfg.max_ops = 6; cfg.w_query = 20; cfg.w_alloc = 45; cfg.w_crystal = 35;
